@@ -1018,7 +1018,7 @@ func (h *history) mutate(kind string) (opRec, bool) {
 func run(args []string) error {
 	f := ParseFlags("c01", args)
 	logging.Disable()
-	n := f.Budget(28, 300)
+	n := f.Budget(24, 300)
 	r := NewRng(f.Seed)
 	o := NewOut()
 	hist := Hist{}
